@@ -15,7 +15,7 @@ from . import taint_common as tc
 
 PID = "C11"
 
-VARIANTS = ["standard", "no-source", "no-sink", "no-rules", "lang-mismatch", "unit-name-match", "unit-name-mismatch",
+VARIANTS = ["sink-line-first-site", "extended-same-name", "standard", "no-source", "no-sink", "no-rules", "lang-mismatch", "unit-name-match", "unit-name-mismatch",
             "line-match", "line-off-by-one", "sink-line-off-by-one", "sink-other-arg", "extended"]
 
 
@@ -47,6 +47,13 @@ def run_case(case):
         snks, allowed_by_rules = [dict(k, line_num=prog["K"] + 1)], False
     elif variant == "sink-other-arg":
         snks, allowed_by_rules = [dict(k, target=["\\%arg1"])], False
+    elif variant == "sink-line-first-site":
+        k0 = [i + 1 for i, l in enumerate(prog["main"].splitlines()) if l.rstrip().endswith("#K0")]
+        snks = [dict(k, line_num=k0[0] if k0 else prog["K"])]
+    elif variant == "extended-same-name":
+        # extensions that reuse the operation and name of an existing rule
+        srcs = [s, dict(s, line_num=prog["S"] + 7)]
+        snks = [k, dict(k, target=["\\%arg1"])]
     elif variant == "extended":
         srcs = [s, {"operation": "call_stmt", "name": "nosuchsource", "tag": ["%target"]}]
         snks = [k, {"operation": "call_stmt", "name": "nosuchsink", "target": ["\\%arg0"], "vuln_type": "y"}]
@@ -55,7 +62,9 @@ def run_case(case):
     res = observe.full_run(prog["files"], "python", settings=st)
     res.pop("_lian", None)
     res["S"], res["K"] = prog["S"], prog["K"]
-    res["kind"] = prog["kind"] if kk != "call-arg1" else "cut"
+    res["K0"] = [i + 1 for i, l in enumerate(prog["main"].splitlines()) if l.rstrip().endswith("#K0")]
+    res["kind"] = prog["kind"] if kk not in ("call-arg1", "kwcallee-cut") else "cut"
+    res["variant_sink_line"] = snks[0].get("line_num") if snks and variant == "sink-line-first-site" else None
     res["allowed_by_rules"] = allowed_by_rules
     res["feats"] = sorted(prog["feats"])
     res["source"] = prog["main"]
@@ -70,8 +79,8 @@ def main():
     quick = common.tier() == "quick"
     bases = [c for c in tc.case_list(quick, 1)]
     if quick:
-        bases = [c for c in bases if c[4] == "one"]
-    cases = [(b, v) for b in bases for v in VARIANTS if not (v == "sink-other-arg" and b[2] == "call-arg1")]
+        bases = [c for c in bases if c[4] == "one" and (len(c[0]) == 0 or (c[1], c[2]) == ("call", "call") or c[0] == ("copy",))]
+    cases = [(b, v) for b in bases for v in VARIANTS if not (v in ("sink-other-arg", "extended-same-name") and b[2] == "call-arg1")]
     results = {}
     stats = {"runs": 0, "runs_with_reported_flows": 0, "reported_flows": 0, "justified": 0, "monotone_checks": 0}
     for idx, res in runner.fork_map(run_case, cases, cpu_limit=300):
@@ -97,6 +106,12 @@ def main():
                 rep.feature_violation(f"flow-without-matching-rule:{variant}", fs,
                                       f"flow {fl} reported although the rule set ({variant}) has no matching source+sink rule pair [{ident}]",
                                       {"case": [list(base[0])] + list(base[1:]), "variant": variant}, size=len(base[0]) * 100 + len(res["source"]), text=ident)
+            elif res.get("variant_sink_line") and fl[1][1] != res["variant_sink_line"]:
+                rep.feature_violation("flow-to-statement-outside-sink-rule-line", {"src:" + base[1], "snk:" + base[2]},
+                                      f"flow {fl} reported; the sink rule is restricted to line {res['variant_sink_line']} [{ident}]\n{res['source']}",
+                                      {"case": [list(base[0])] + list(base[1:]), "variant": variant}, size=len(base[0]) * 100 + len(res["source"]), text=ident)
+            elif fl in [(("main.py", res["S"]), ("main.py", k0)) for k0 in res.get("K0", [])] and variant not in ("sink-line-off-by-one",):
+                stats["justified"] += 1       # the additional, always connected sink site of the helper-twice programs
             elif fl != expected_pair:
                 rep.feature_violation("flow-between-other-statements", links or set(res["feats"]),
                                       f"flow {fl} reported; the only source statement is on line {res['S']} and the only sink on line {res['K']} [{ident}]\n{res['source']}",
@@ -112,7 +127,7 @@ def main():
     for (base, variant), got in results.items():
         if variant != "standard":
             continue
-        for v2 in ("extended", "unit-name-match", "line-match"):
+        for v2 in ("extended", "extended-same-name", "unit-name-match", "line-match"):
             other = results.get((base, v2))
             if other is None:
                 continue
